@@ -12,7 +12,7 @@ import ast
 from ..program import AnalysisError, Inconclusive, ClassInfo
 from ..values import App, Const, Sym, walk
 from ..effects import Effects
-from ..report import Finding, RuleResult, floor
+from ..report import Finding, RuleResult, floor, Attempts
 
 PROP = 'C07'
 MODULES = ['kripke', 'graph', 'language', 'PL', 'CTL', 'CTLS', 'LTL',
@@ -217,7 +217,9 @@ def rule_pure4(prog, E):
 
 def run(prog, tier, seed):
     E = effects(prog)
-    results = [rule_pure1(prog, E), rule_pure3(prog, E), rule_pure4(prog, E)]
+    T = Attempts()
+    results = T.results(T(rule_pure1, prog, E), T(rule_pure3, prog, E),
+                        T(rule_pure4, prog, E))
     expl = ('Interprocedural effect/alias summaries (mutated parameters, '
             'aliased results, stored values, global writes) are computed for '
             'every function by abstract interpretation and closed over the '
@@ -238,5 +240,5 @@ def run(prog, tier, seed):
                    'aliases',
                    'in-process iteration order is outside this property '
                    '(C06)']
-    return results, expl, assumptions, {'summaries': len(E.summ),
-                                        'fixpoint_passes': E.passes}
+    return results, expl, assumptions, T.extra({'summaries': len(E.summ),
+                                                'fixpoint_passes': E.passes})
